@@ -812,10 +812,11 @@ def zoo_ops():
         "z_transform_mods": lambda c: put(c, Z(c).transform_mods(lambda l: l + [math]), ["mods"],
                                           lambda r: r.mods[-1] is math and r.mods[0] is c["z"].mods[0]),
         "z_transform_table": lambda c: put(c, Z(c).transform_table(_bump), ["table"],
-                                           lambda r: r.table["bumped"] is sys and "bumped" not in c["z"].table
-                                           and same_copy(c["z"].table, {k: v for k, v in r.table.items() if k != "bumped"})),
+                                           lambda r: r.table["bumped"] is sys
+                                           and same_copy({k: v for k, v in c["z"].table.items() if k != "bumped"},
+                                                         {k: v for k, v in r.table.items() if k != "bumped"})),
         "z_transform_mset": lambda c: put(c, Z(c).transform_mset(lambda s: s | {math}), ["mset"],
-                                          lambda r: math in r.mset and sys in r.mset),
+                                          lambda r: math in r.mset and same_copy(c["z"].mset | {math}, r.mset)),
         "z_transform_extra": lambda c: put(c, Z(c).transform_extra(_bump), ["extra"],
                                            lambda r: r.extra[-1] is sys and len(r.extra) == len(c["z"].extra) + 1
                                            and same_copy(c["z"].extra, r.extra[:-1])),
